@@ -18,7 +18,9 @@ static std::string hkey(Rng &r) {
     if (r.chance(1, 10)) return gen_string(r, false, false, 5);
     return ks[r.below(14)];
 }
+static bool g_casekeys = false;
 static std::string ukey(Rng &r) {  // keys for Utils documents
+    if (g_casekeys) { static const char *cs[] = {"a", "A", "b", "B", "c", "C", "d", "aa", "aA", "Ab"}; return cs[r.below(10)]; }
     static const char *ks[] = {"a", "b", "A", "", "/", "~", "a/b", "m~n", "0", "1", "-", "x", "foo", "B", "c", "d", "new"};
     return ks[r.below(17)];
 }
@@ -114,6 +116,7 @@ Plan gen_plan(const std::string &prop, uint64_t seed, int64_t run) {
     p.seed = seed;
     p.run = run;
     Rng r(mix64(mix64(seed, hash_str(prop)), (uint64_t)run));
+    g_casekeys = false;
     if (prop == "C06") {
         common_knobs(p, r, 0);
         auto mix = swarm(cat({CREATE, EDIT, EDIT, QUERY, {{"refuse", 6}, {"add_ref_arr", 2}, {"add_ref_obj", 2}, {"new_strref", 1}, {"delete", 2}, {"add_obj_alias", 1}}}), r);
@@ -180,7 +183,9 @@ Plan gen_plan(const std::string &prop, uint64_t seed, int64_t run) {
         add_steps(p, cat({EDIT, QUERY, {{"print", 2}, {"addh", 6}, {"add_obj", 4}}}), r, (int)r.range(3, 15), true);
         if (r.chance(1, 2)) p.steps.push_back(make_step("patch_gen", r));
     } else if (prop == "C18") {
-        common_knobs(p, r, r.chance(1, 2) ? 3 : 4);
+        int prof = (int)r.below(3);
+        common_knobs(p, r, prof == 0 ? 3 : (prof == 1 ? 4 : 6));
+        g_casekeys = prof == 2;
         auto mixm = std::vector<W>{{"merge_apply", 3}, {"merge_gen", 3}, {"parse", 3}, {"dup", 1}, {"addh", 2}, {"delete_key", 1}, {"set_number", 1}};
         add_steps(p, {{"parse", 1}}, r, 2);
         if (r.chance(1, 2)) { Step d = make_step("dup", r); d.a[2] = 1; p.steps.push_back(d); add_steps(p, cat({EDIT, {{"addh", 6}, {"delete_key", 4}}}), r, (int)r.range(1, 5), true); }
